@@ -745,6 +745,13 @@ func (s *Sim) takeEdge(rc *runCtx, it workItem, st *State, b, succ *ssa.BasicBlo
 				break
 			}
 		}
+		// SSA: a definition dominates its uses, so a value whose defining block does not
+		// dominate succ is re-defined before any use reachable from succ (loop bodies)
+		if live {
+			if in, ok := v.(ssa.Instruction); ok && in.Block() != nil && in.Block() != succ && !in.Block().Dominates(succ) {
+				live = false
+			}
+		}
 		if !live {
 			delete(st.vals, v)
 		}
@@ -757,6 +764,9 @@ func (s *Sim) takeEdge(rc *runCtx, it workItem, st *State, b, succ *ssa.BasicBlo
 					live = true
 					break
 				}
+			}
+			if live && a.Block() != nil && a.Block() != succ && !a.Block().Dominates(succ) {
+				live = false
 			}
 			if !live {
 				delete(st.cells, c)
